@@ -223,8 +223,14 @@ func (c *ScalarCase) value() reflect.Value { return desc.Build(desc.Type(c.T), c
 // prepare builds the argument of the call (value, carrier object, rule map)
 // and returns a closure that performs nothing but the library call, so that
 // concurrent checks can build everything before the goroutines start.
-func (c *ScalarCase) prepare() func() error {
+func (c *ScalarCase) prepare() func() error { return c.prepareV(nil) }
+
+// prepareV is prepare; it also hands out the value it built for our entry (the memory the call works on).
+func (c *ScalarCase) prepareV(out *reflect.Value) func() error {
 	v := c.value()
+	if out != nil {
+		*out = v
+	}
 	rules := c.rules()
 	key := c.k()
 	switch c.Carrier {
